@@ -373,7 +373,7 @@ func makePlan(defs []*worldDef, thorough bool) *plan {
 	if thorough {
 		states = allStates()
 	}
-	cliFilters := []filterSpec{fNone, fIa, fXb, fIdir, fCfg, fOverride}
+	cliFilters := []filterSpec{fNone, fIdir, fCfg, fOverride}
 	cfgFilters := []filterSpec{fNone, gXb, gIdir}
 	if thorough {
 		cliFilters = []filterSpec{fNone, fIa, fXb, fIdir, fCfg, fOverride, fClear, fList, fBoth}
@@ -390,6 +390,9 @@ func makePlan(defs []*worldDef, thorough bool) *plan {
 		}
 		for _, r := range d.refs {
 			pairs = append(pairs, [2]string{"main", r})
+		}
+		if !thorough && len(d.refs) > 2 {
+			pairs = [][2]string{{"main", ""}, {"feature", ""}, {"main", "feature"}, {"main", "v1"}}
 		}
 		if thorough {
 			for _, h := range d.refs[1:] {
@@ -447,8 +450,9 @@ func makePlan(defs []*worldDef, thorough bool) *plan {
 		add("pull-perturb2/linear", pairGen(0, cPull, "a.bin", "b.bin", []preset{prNone, prAll}, []filterSpec{fNone}, nil, no))
 		add("pull-perturb1/linear", pairGen(0, cPull, "a.bin", "", []preset{prNone, prAll, prOnly("a.bin"), prAllBut("a.bin")}, []filterSpec{fNone, fXa}, nil, []bool{false, true}))
 		add("pull-perturb1/dups", pairGen(2, cPull, "dir/c.bin", "", []preset{prNone, prAll}, []filterSpec{fNone}, nil, no))
-		add("lco-perturb2/linear", pairGen(0, cLco, "a.bin", "b.bin", []preset{prAll}, []filterSpec{fNone}, []lcoVar{lAll, lA}, no))
-		add("lco-perturb1/linear", pairGen(0, cLco, "a.bin", "", []preset{prNone, prAll, prOnly("a.bin"), prAllBut("a.bin")}, []filterSpec{fNone, gXa}, []lcoVar{lAll, lA, lDirSl, lSubC}, no))
+		add("lco-perturb2/linear", pairGen(0, cLco, "a.bin", "b.bin", []preset{prAll}, []filterSpec{fNone}, []lcoVar{lAll}, no))
+		add("lco-perturb1/linear", pairGen(0, cLco, "a.bin", "", []preset{prNone, prAll, prOnly("a.bin"), prAllBut("a.bin")}, []filterSpec{fNone}, []lcoVar{lAll, lA, lDirSl, lSubC}, no))
+		add("lco-perturb1-cfgexclude/linear", pairGen(0, cLco, "a.bin", "", []preset{prAll}, []filterSpec{gXa}, []lcoVar{lAll}, no))
 		add("lco-perturb1c/linear", pairGen(0, cLco, "dir/c.bin", "", []preset{prNone, prAll}, []filterSpec{fNone}, []lcoVar{lAll, lDirSl, lDir, lSubC, lSubAll}, no))
 	} else {
 		add("pull-perturb2/linear", pairGen(0, cPull, "a.bin", "b.bin", []preset{prNone, prAll, prOnly("a.bin")}, []filterSpec{fNone, fXb}, nil, no))
@@ -474,11 +478,15 @@ func makePlan(defs []*worldDef, thorough bool) *plan {
 	})
 	// ---- storage layouts (world "linear" at main): lfs.storage and a reference (alternates) store
 	stCmds := []cmdKind{cFetch, cPull, cLco}
+	nAlt := 1 // selections per command: none; thorough adds -X b.bin / path argument a.bin
+	if thorough {
+		nAlt = 2
+	}
 	add("storage-reference/linear", func(in chooser) *caseSpec {
 		cs := &caseSpec{world: 0, cmd: stCmds[in(len(stCmds))], head: "main", lco: lAll, storage: stReference}
 		cs.needed = cs.tree(defs).neededOids()
 		cs.loc = ternLoc(in(pow(3, len(cs.needed))), len(cs.needed))
-		alt := in(2)
+		alt := in(nAlt)
 		cs.filter = fNone
 		if alt == 1 {
 			if cs.cmd == cLco {
@@ -493,7 +501,7 @@ func makePlan(defs []*worldDef, thorough bool) *plan {
 		cs := &caseSpec{world: 0, cmd: stCmds[in(len(stCmds))], head: "main", lco: lAll, storage: stLfsStorage}
 		cs.needed = cs.tree(defs).neededOids()
 		cs.loc = maskLoc(in(1<<len(cs.needed)), len(cs.needed), 1)
-		alt := in(2)
+		alt := in(nAlt)
 		cs.filter = fNone
 		if alt == 1 {
 			if cs.cmd == cLco {
@@ -685,10 +693,10 @@ func (ev *env) execCase(cs *caseSpec) (res vx.Result) {
 	if cs.cmd == cClone {
 		os.MkdirAll(caseDir, 0755)
 		if useRef {
-			gitx.CopyTree(filepath.Join(ev.base(baseKey{cs.world, "main", false}), "local"), refrepo)
+			copyTree(filepath.Join(ev.base(baseKey{cs.world, "main", false}), "local"), refrepo)
 		}
 	} else {
-		gitx.CopyTree(ev.base(baseKey{cs.world, cs.head, useRef}), caseDir)
+		copyTree(ev.base(baseKey{cs.world, cs.head, useRef}), caseDir)
 		if useRef {
 			if err := os.WriteFile(filepath.Join(local, ".git", "objects", "info", "alternates"), []byte(filepath.Join(refrepo, ".git", "objects")+"\n"), 0644); err != nil {
 				panic(err)
@@ -1070,6 +1078,53 @@ func (ev *env) execCase(cs *caseSpec) (res vx.Result) {
 	return res
 }
 
+// copyTree copies a prepared directory tree like cp -a (modes, symlinks, file and directory mtimes) without a subprocess.
+func copyTree(src, dst string) {
+	type dirTime struct {
+		p string
+		t time.Time
+	}
+	var dirs []dirTime
+	err := filepath.Walk(src, func(p string, info os.FileInfo, err error) error {
+		if err != nil {
+			return err
+		}
+		rel, _ := filepath.Rel(src, p)
+		to := filepath.Join(dst, rel)
+		switch {
+		case info.IsDir():
+			if err := os.MkdirAll(to, 0755); err != nil {
+				return err
+			}
+			os.Chmod(to, info.Mode().Perm()|0700)
+			dirs = append(dirs, dirTime{to, info.ModTime()})
+		case info.Mode()&os.ModeSymlink != 0:
+			l, err := os.Readlink(p)
+			if err != nil {
+				return err
+			}
+			return os.Symlink(l, to)
+		case info.Mode().IsRegular():
+			b, err := os.ReadFile(p)
+			if err != nil {
+				return err
+			}
+			if err := os.WriteFile(to, b, 0600); err != nil {
+				return err
+			}
+			os.Chmod(to, info.Mode().Perm())
+			os.Chtimes(to, info.ModTime(), info.ModTime())
+		}
+		return nil
+	})
+	if err != nil {
+		panic("copyTree: " + err.Error())
+	}
+	for i := len(dirs) - 1; i >= 0; i-- {
+		os.Chtimes(dirs[i].p, dirs[i].t, dirs[i].t)
+	}
+}
+
 func tail(s string) string {
 	if len(s) > 1500 {
 		return "..." + s[len(s)-1500:]
@@ -1171,7 +1226,7 @@ func TestVerifC04(t *testing.T) {
 		"'successful' = exit status 0; after a failed command only the non-clobbering clause is judged; store clause for pull skips paths deleted in the index",
 		"the local store starts intact: it holds exactly the stated subset of valid objects; the fake server is complete except on the 'lacking' endpoint; linear and one-merge histories, <=5 LFS files, <=3 distinct objects per tree; git 2.39.5 (ls-tree code path of ScanLFSFiles); subprocess timeout 90 s is a tool guard (=> inconclusive)",
 	}
-	workers := runtime.NumCPU() + runtime.NumCPU()/2
+	workers := 2 * runtime.NumCPU()
 	if n, err := strconv.Atoi(os.Getenv("VERIF_C04_WORKERS")); err == nil && n > 0 {
 		workers = n
 	}
